@@ -1,4 +1,4 @@
 from . import terms
 from .terms import (Unsupported, Infeasible, new_context, ctx, decide, choose, assume, explore, prove, check_sat,
                     feasible, entails, same_value, Verdict)
-from .tensor import SymTensor, SymScalar, sym, const, concretize, to_terms, vmap, mk, handler, HANDLERS
+from .tensor import sym_int, SymTensor, SymScalar, sym, const, concretize, to_terms, vmap, mk, handler, HANDLERS
